@@ -37,18 +37,19 @@ import (
 //
 // C31 (b) oracle: each stream end is successfully accepted by at most one local directive.
 type solicitWorld struct {
-	prop      string
-	s         *dsim.Sim
-	net       *node.Net
-	nodes     [2]*node.Node
-	tcs       [2]*node.TC
-	la, lb    *node.SimLink
-	dirs      []*solDir
-	ops       int
-	maxOps    int
-	viol      *dsim.Violation
-	owners    map[*node.SimStream][]*solDir
-	idleSince time.Duration
+	prop        string
+	s           *dsim.Sim
+	net         *node.Net
+	nodes       [2]*node.Node
+	tcs         [2]*node.TC
+	la, lb      *node.SimLink
+	dirs        []*solDir
+	ops         int
+	withdrawals int
+	maxOps      int
+	viol        *dsim.Violation
+	owners      map[*node.SimStream][]*solDir
+	idleSince   time.Duration
 }
 
 type solDir struct {
@@ -62,6 +63,14 @@ type solDir struct {
 	got     []*node.SimStream
 	values  int
 	already int
+	// withdrawal (the application releases its solicitation)
+	di          directive.Instance
+	ref         directive.Reference
+	withdrawn   bool
+	disposed    bool
+	disposedAt  time.Duration
+	settled     bool // disposed, and the link has been quiet since
+	counterpart bool // since this directive exists, the other side had a same-class solicitation that was not settled-withdrawn
 }
 
 func (d *solDir) admits() bool {
@@ -86,6 +95,10 @@ func (d *solDir) HandleValueAdded(_ directive.Instance, v directive.AttachedValu
 	if !ok {
 		return
 	}
+	if w.prop == "C30" && !d.counterpart && !d.withdrawn {
+		w.fail(&dsim.Violation{Property: "C30", Rule: "matched-without-counterpart", Witness: "other-side-withdrew-earlier",
+			Detail: fmt.Sprintf("solicitation (%q,%q) on node %d was handed a stream although, ever since it was made, the other node has had no solicitation for that protocol and context (the last one was withdrawn and the link had been quiet since)", clipTail(d.proto), clipTail(d.ctx), d.side+1)})
+	}
 	d.got = append(d.got, st)
 	w.owners[st] = append(w.owners[st], d)
 	w.s.Count("done:stream-accepted")
@@ -99,7 +112,10 @@ func (d *solDir) HandleValueAdded(_ directive.Instance, v directive.AttachedValu
 	w.pairCheck(st)
 }
 func (d *solDir) HandleValueRemoved(directive.Instance, directive.AttachedValue) {}
-func (d *solDir) HandleInstanceDisposed(directive.Instance)                      {}
+func (d *solDir) HandleInstanceDisposed(directive.Instance) {
+	d.disposed = true
+	d.disposedAt = d.w.s.Now()
+}
 
 func init() {
 	register(&Spec{
@@ -108,7 +124,7 @@ func init() {
 		Cfg:        dsim.Config{MaxChaosSteps: 140, MaxStableSteps: 30000, Horizon: 20 * time.Second},
 		Real:       []string{"link/solicit/controller.Controller (link tracking, control stream exchange, hash computation, match evaluation, solicited stream opening and routing, resolveMatch)", "link/solicit hash functions and SolicitProtocol directive", "transport/controller.Controller, controllerbus, peer controller"},
 		Stub:       []string{"simlink pair between the two nodes; byte delivery chunked by the driver"},
-		FaultKinds: []string{"fault:colliding-concatenation", "fault:long-inputs-differing-in-tail", "fault:stranger-peer-constraint", "fault:other-transport-constraint", "fault:chunking", "fault:clock-jump"},
+		FaultKinds: []string{"fault:colliding-concatenation", "fault:long-inputs-differing-in-tail", "fault:stranger-peer-constraint", "fault:other-transport-constraint", "fault:chunking", "fault:clock-jump", "fault:solicitation-withdrawn"},
 	})
 }
 
@@ -213,12 +229,26 @@ func (w *solicitWorld) addDir(side int) {
 		tid = 424242
 		s.Count("fault:other-transport-constraint")
 	}
+	// counterpart bookkeeping (both directions)
+	for _, o := range w.dirs {
+		// (same concatenation: solicitations whose protocol||context coincide share a hash,
+		// which is the known finding S-8a and is reported by its own rules)
+		if o.side != side && o.proto+o.ctx == d.proto+d.ctx {
+			if !o.settled {
+				d.counterpart = true
+			}
+			if !o.withdrawn {
+				o.counterpart = true
+			}
+		}
+	}
 	w.dirs = append(w.dirs, d)
 	s.Logf("solicit side%d dir#%d (%q,%q) peer=%s tpt=%s", side, d.id, clip(d.proto), clip(d.ctx), d.peer, d.tpt)
-	_, _, err := w.nodes[side].Bus.AddDirective(link_solicit.NewSolicitProtocol(protocol.ID(d.proto), []byte(d.ctx), pid, tid), d)
+	di, ref, err := w.nodes[side].Bus.AddDirective(link_solicit.NewSolicitProtocol(protocol.ID(d.proto), []byte(d.ctx), pid, tid), d)
 	if err != nil {
 		panic(err)
 	}
+	d.di, d.ref = di, ref
 }
 
 func (w *solicitWorld) Actions(s *dsim.Sim, add func(dsim.Action)) {
@@ -233,6 +263,31 @@ func (w *solicitWorld) Actions(s *dsim.Sim, add func(dsim.Action)) {
 	}
 	if w.ops >= w.maxOps {
 		return
+	}
+	// settle withdrawals: disposed, nothing in flight, and half a second of quiet
+	for _, d := range w.dirs {
+		if d.withdrawn && d.disposed && !d.settled && w.net.Idle() && s.ParkedCount() == 0 && s.Now()-d.disposedAt >= 500*time.Millisecond {
+			d.settled = true
+			s.Logf("withdrawal of dir#%d settled", d.id)
+		}
+	}
+	if w.prop == "C30" && w.withdrawals < 2 {
+		for _, d := range w.dirs {
+			d := d
+			if d.withdrawn || d.ref == nil {
+				continue
+			}
+			add(dsim.Action{Name: fmt.Sprintf("3op:withdraw:%d", d.id), Weight: 2, Fire: func() {
+				w.ops++
+				w.withdrawals++
+				s.Count("fault:solicitation-withdrawn")
+				d.withdrawn = true
+				d.ref.Release()
+				// (Close skips the directive's 10 s hold-open, as an application that is done may)
+				d.di.Close()
+				s.Logf("withdraw dir#%d side%d (%q,%q)", d.id, d.side, clip(d.proto), clip(d.ctx))
+			}})
+		}
 	}
 	for side := 0; side < 2; side++ {
 		side := side
@@ -268,7 +323,7 @@ func (w *solicitWorld) Final(s *dsim.Sim, stuck bool) *dsim.Violation {
 	// was handed out on both sides
 	classes := map[string][2]bool{}
 	for _, d := range w.dirs {
-		if !d.admits() {
+		if !d.admits() || d.withdrawn {
 			continue
 		}
 		k := d.proto + "\x00" + d.ctx
